@@ -1007,6 +1007,9 @@ func Eval(t *Term, ints map[string]*big.Int, bools map[string]bool) (iv *big.Int
 }
 
 func (t *Term) String() string {
+	if t.size > 2000 {
+		return fmt.Sprintf("<term #%d size %d>", t.id, t.size)
+	}
 	p := NewPrinter()
 	s := p.str(t)
 	if len(s) > 400 {
